@@ -548,6 +548,9 @@ void *slab_pool<Policy, Mutex>::realloc(void *p, size_t new_size) {
 	void *new_p = allocate(new_size);
 	if(!new_p)
 		return nullptr;
+	// Only the bytes that were requested for p are unpoisoned, but we copy the whole block.
+	if constexpr (has_poisoning)
+		_plcy.unpoison_expand(p, current_size);
 	memcpy(new_p, p, current_size);
 	free(p);
 	return new_p;
